@@ -1173,10 +1173,11 @@ func getLoginDestination(r *http.Request) string {
 		inboundLoginDestination := r.Form.Get("login_destination")
 		// Browsers treat a backslash as a slash and drop tabs and newlines
 		// when resolving a URL, so "/\host" and "/<TAB>/host" also leave the
-		// origin. http.Redirect cleans the path, which turns "/./\host" into
-		// "/\host": no backslash is allowed anywhere in the path.
+		// origin. http.Redirect cleans everything before the first "?", which
+		// turns "/./\host" and "/a#/../\host" into "/\host": no backslash is
+		// allowed anywhere before the query.
 		destinationPath := inboundLoginDestination
-		if i := strings.IndexAny(destinationPath, "?#"); i >= 0 {
+		if i := strings.Index(destinationPath, "?"); i >= 0 {
 			destinationPath = destinationPath[:i]
 		}
 		if strings.HasPrefix(inboundLoginDestination, "/") &&
